@@ -97,6 +97,8 @@ Inductive ev :=
 | SendW (n cont j : nat) (* BLE: like Send, but the GATT write of fragment j is refused (BleakError, link up or
                            dropping); no such fragment = plain Send.  Not an event of the IP / CoAP machines *)
 | Next                  (* the accessory's next frame is delivered *)
+| Next404               (* CoAP: the accessory's next response arrives with code 4.04 Not Found (post_bytes shuts the
+                           context down and still decrypts the payload).  Not an event of the IP / BLE machines *)
 | Replay (i : nat)      (* the genuine frame with nonce i of the current key is delivered *)
 | ReplayOld (i : nat)   (* the genuine frame with nonce i of the previous key epoch *)
 | Future (k : nat)      (* the accessory skipped k nonces: frame srv+k is delivered *)
@@ -164,7 +166,7 @@ Definition ip_step (s : ip) (e : ev) : ip :=
       else
         mkIp (i_ep s) (i_c2a s + k) (i_a2c s) false (i_pend s ++ [i_nreq s]) (i_srv s) (S (i_nreq s))
              (add_wire xs (add_seal xs (i_log s)))
-  | SendW _ _ _ => s
+  | SendW _ _ _ | Next404 => s
   | Next => ip_deliver_at s (i_srv s)
   | Replay i => ip_deliver_at s i
   | ReplayOld i =>
@@ -286,6 +288,7 @@ Definition ble_step (s : ble) (e : ev) : ble :=
   match e with
   | Send n cont => ble_send s n cont None
   | SendW n cont j => ble_send s n cont (Some j)
+  | Next404 => s
   | Next => ble_deliver_at s (b_srv s)
   | Replay i => ble_deliver_at s i
   | ReplayOld i =>
@@ -360,21 +363,23 @@ Definition coap_cands (recv : nat) : list nat :=
   let rw := Nat.min 5 recv in
   recv :: seq (recv - rw) rw ++ seq (S recv) 5.
 
-Definition coap_response (s : coap) (f : frame) : coap :=
+Definition coap_response (s : coap) (f : frame) (nf : bool) : coap :=
   match c_infl s with
   | None => s
   | Some id =>
+      (* post_bytes: response.code == NOT_FOUND -> shutdown; coap_ctx = None - and then _decrypt_response anyway *)
+      let alive := if nf then false else c_alive s in
       let c := (c_ep s, A2C) in
       let ar := try_open c f (coap_cands (c_recv s)) in
       match snd ar with
       | Some n =>
-          coap_drain (c_ep s) (c_send s) (S n) (c_evt s) (c_alive s) (c_srv s) (c_esrv s) (c_nreq s)
+          coap_drain (c_ep s) (c_send s) (S n) (c_evt s) alive (c_srv s) (c_esrv s) (c_nreq s)
                      (add_out [(c_ep s, id, ROk)] (add_acc [(c, n)] (add_open (fst ar) (c_log s))))
                      (c_wait s)
       | None =>
           (* "try zeroing out the counters": recv_ctr = 0, send_ctr = 0 *)
           if opens (c, 0) f then
-            coap_drain (c_ep s) 0 1 (c_evt s) (c_alive s) (c_srv s) (c_esrv s) (c_nreq s)
+            coap_drain (c_ep s) 0 1 (c_evt s) alive (c_srv s) (c_esrv s) (c_nreq s)
                        (add_out [(c_ep s, id, ROk)]
                           (add_acc [(c, 0)] (add_open (fst ar ++ [((c, 0), true)]) (c_log s))))
                        (c_wait s)
@@ -392,10 +397,10 @@ Definition coap_setsrv s v :=
 Definition coap_setesrv s v :=
   mkCoap (c_ep s) (c_send s) (c_recv s) (c_evt s) (c_alive s) (c_infl s) (c_wait s) (c_srv s) v (c_nreq s) (c_log s).
 
-Definition coap_response_at (s : coap) (i : nat) : coap :=
+Definition coap_response_at (s : coap) (i : nat) (nf : bool) : coap :=
   match c_infl s with
   | None => s
-  | Some _ => coap_response (coap_setsrv s (Nat.max (c_srv s) (S i))) (Genuine ((c_ep s, A2C), i))
+  | Some _ => coap_response (coap_setsrv s (Nat.max (c_srv s) (S i))) (Genuine ((c_ep s, A2C), i)) nf
   end.
 
 (* the in-flight request ends without a response; [kill] = the NetworkError/TimeoutError
@@ -431,18 +436,19 @@ Definition coap_step (s : coap) (e : ev) : coap :=
                            (S (c_nreq s)) (c_log s) [c_nreq s]
       end
   | SendW _ _ _ => s
-  | Next => coap_response_at s (c_srv s)
-  | Replay i => coap_response_at s i
+  | Next => coap_response_at s (c_srv s) false
+  | Next404 => coap_response_at s (c_srv s) true
+  | Replay i => coap_response_at s i false
   | ReplayOld i =>
       match c_infl s, c_ep s with
-      | Some _, S e' => coap_response s (Genuine ((e', A2C), i))
+      | Some _, S e' => coap_response s (Genuine ((e', A2C), i)) false
       | _, _ => s
       end
-  | Future k => coap_response_at s (c_srv s + k)
+  | Future k => coap_response_at s (c_srv s + k) false
   | Corrupt =>
       match c_infl s with
       | None => s
-      | Some _ => coap_response (coap_setsrv s (S (c_srv s))) Junk
+      | Some _ => coap_response (coap_setsrv s (S (c_srv s))) Junk false
       end
   | Cancel => coap_abort s RCancel false
   | Timeout => coap_abort s RFail true
